@@ -203,6 +203,17 @@ def lit_bal_low(s: str):
     return bal, low
 
 
+def _term_measure(t, lit_fn, unint_fn):
+    """Measure of a Str term: literals concretely, if-then-else structurally, anything else uninterpreted."""
+    if z3.is_app_of(t, z3.Z3_OP_ITE):
+        c, a, b = t.children()
+        return z3.If(c, _term_measure(a, lit_fn, unint_fn), _term_measure(b, lit_fn, unint_fn))
+    nm = INTERN.name_of(t)
+    if nm is not None:
+        return lit_fn(nm)
+    return unint_fn(t)
+
+
 def rope_bal_low(r):
     """(bal, low) of a rope as z3 terms, by the homomorphism laws."""
     bal = z3.IntVal(0)
@@ -219,7 +230,8 @@ def rope_bal_low(r):
         elif isinstance(p, Tok):
             pb, pl = p.fields.get("bal", z3.IntVal(0)), p.fields.get("low", z3.IntVal(0))
         else:
-            pb, pl = m_bal(p), m_low(p)
+            pb = _term_measure(p, lambda x: z3.IntVal(lit_bal_low(x)[0]), m_bal)
+            pl = _term_measure(p, lambda x: z3.IntVal(lit_bal_low(x)[1]), m_low)
         low = z3.If(low <= bal + pl, low, bal + pl)
         bal = bal + pb
     return z3.simplify(bal), z3.simplify(low)
@@ -238,7 +250,7 @@ def rope_ascii(r):
         elif isinstance(p, Tok):
             cs.append(p.fields.get("ascii", z3.BoolVal(True)))
         else:
-            cs.append(m_ascii(p))
+            cs.append(_term_measure(p, lambda x: z3.BoolVal(all(ord(ch) < 128 for ch in x)), m_ascii))
     return z3.And(*cs) if cs else z3.BoolVal(True)
 
 
